@@ -397,6 +397,27 @@ pub fn sweep(thorough: bool, panic_only: bool) -> (u64, Vec<(String, String)>) {
             }
         }
     }
+    // declared precision + balance assertions / assignments: an assertion is exact, never "true up to the display precision"
+    for v in [d("100.004"), d("100"), d("99.996"), d("-0.004")] {
+        for x in [d("110"), d("110.004"), d("109.996"), d("110.00"), d("9.996"), d("10")] {
+            for with_amount in [true, false] {
+                let t1: Txn = vec![
+                    Post { account: "A", amount: Some((v, "Y")), cost: None, lot: None, assertion: None },
+                    Post { account: "E", amount: None, cost: None, lot: None, assertion: None },
+                ];
+                let t2: Txn = vec![
+                    Post { account: "A", amount: if with_amount { Some((d("10"), "Y")) } else { None }, cost: None, lot: None, assertion: Some((x, Some("Y"))) },
+                    Post { account: "E", amount: None, cost: None, lot: None, assertion: None },
+                ];
+                evaluated += 1;
+                if let Some(b) = check(&[t1, t2], &["Y"]).filter(|b| !panic_only || b.1.contains("panicked")) {
+                    if bad.len() < 12 {
+                        bad.push(b);
+                    }
+                }
+            }
+        }
+    }
     (evaluated, bad)
 }
 
